@@ -121,7 +121,7 @@ def depth_obligations(pid, mir_text, info, add, violations, inconclusive):
         raise Unsupported(f"check_block not found for {missing}")
     info["check_block"] = {}
     for name in ("bfs", "dfs"):
-        res, binfo = blockloop.obligations(name, cbs[name])
+        res, binfo = blockloop.obligations(name, cbs[name], helpers=blockloop.find_helpers(mir_text, name))
         binfo["mir_sha256"] = hashlib.sha256(cbs[name].encode()).hexdigest()[:12]
         info["check_block"][name] = binfo
         info["functions_encoded"].append(f"checker::{name}::check_block (MIR sha256 {binfo['mir_sha256']}, {binfo['blocks']} basic blocks, {binfo['round_paths']} paths per job, inner loops {binfo['inner_loops_havocked']} abstracted by havoc)")
@@ -275,6 +275,27 @@ def run(pid, tier, seed, replay_path=None):
                     inconclusive.append(o["obligation"] + ": " + o["result"])
             if not bm.spawns_timeout_thread():
                 inconclusive.append("JobBroker::new does not spawn the timeout closure any more")
+        elif pid == "C13":
+            cbs = blockloop.find_check_blocks(mir_text)
+            if "bfs" not in cbs:
+                raise Unsupported("bfs.rs check_block not found in the MIR")
+            res, binfo = blockloop.obligations("bfs", cbs["bfs"], fifo=True, witness=True, helpers=blockloop.find_helpers(mir_text, "bfs"))
+            binfo["mir_sha256"] = hashlib.sha256(cbs["bfs"].encode()).hexdigest()[:12]
+            info["check_block"] = {"bfs": binfo}
+            info["functions_encoded"].append(f"checker::bfs::check_block (MIR sha256 {binfo['mir_sha256']}, {binfo['blocks']} basic blocks, {binfo['round_paths']} paths per job, inner loops {binfo['inner_loops_havocked']} abstracted by havoc)")
+            seen_kinds = set()
+            allres = res + blockloop.initial_depth("bfs", mir_text) + checks.single_thread_broker(bm) + [checks.bfs_order_induction()]
+            for o in allres:
+                if "target_max_depth" in o["obligation"] and "skipped only" in o["obligation"]:
+                    pass  # D1 belongs to C12 but is harmless here: kept, it is part of what makes depth labels meaningful
+                add(o["obligation"], o["result"], **({"witness": o["witness"]} if o.get("witness") else {}))
+                kind = o["obligation"].split(": ", 2)[-1]
+                if o["result"] == "sat":
+                    if kind not in seen_kinds:
+                        seen_kinds.add(kind)
+                        violations.append({"property": pid, "obligation": o["obligation"], "static": True, "witness": o.get("witness")})
+                elif o["result"] != "unsat":
+                    inconclusive.append(o["obligation"] + ": " + o["result"])
         info["z3_feasibility_queries"] = bm.ex.queries
     except Unsupported as e:
         inconclusive.append("encoder: " + str(e))
@@ -306,6 +327,9 @@ def run(pid, tier, seed, replay_path=None):
                 confirmed.append((v, path))
             else:
                 inconclusive.append(f"counterexample for `{role}` did not reproduce natively ({'ran clean' if ok is False else 'divergence/build problem'}): {out[-400:]}")
+    except Exception as e:  # noqa: BLE001 - a failing replay is never a verdict
+        import traceback
+        inconclusive.append("native replay failed to run: " + traceback.format_exc()[-800:])
     finally:
         shutil.rmtree(d, ignore_errors=True)
 
@@ -570,6 +594,65 @@ fn verif_worker_leaves_only_for_a_stop_reason() {
 }
 '''
 
+BFS_ORDER_TEST = r'''
+use stateright::{Checker, Model, Property, StateRecorder};
+use std::collections::{HashMap, VecDeque};
+
+/// A graph with shortcuts and several witnesses at different distances.
+struct G;
+impl G {
+    fn succ(s: u32) -> Vec<u32> {
+        let mut v = vec![];
+        if s + 1 < 60 { v.push(s + 1); }          // long way
+        if s % 7 == 0 && s + 5 < 60 { v.push(s + 5); }   // shortcut, listed later
+        if s % 4 == 1 && s >= 3 { v.push(s - 3); }       // back edge
+        v
+    }
+}
+impl Model for G {
+    type State = u32;
+    type Action = u32;
+    fn init_states(&self) -> Vec<u32> { vec![0, 30] }
+    fn actions(&self, s: &u32, a: &mut Vec<u32>) { a.extend(G::succ(*s)); }
+    fn next_state(&self, _s: &u32, a: u32) -> Option<u32> { Some(a) }
+    fn properties(&self) -> Vec<Property<Self>> {
+        vec![Property::sometimes("hit", |_, s| *s == 19 || *s == 12 || *s == 44),
+             Property::always("low", |_, s| *s != 23 && *s != 52 && *s != 17)]
+    }
+}
+
+#[test]
+fn verif_single_threaded_bfs_order_and_shortest_witnesses() {
+    // reference distances
+    let mut dist: HashMap<u32, usize> = HashMap::new();
+    let mut q = VecDeque::new();
+    for s in [0u32, 30] { dist.insert(s, 0); q.push_back(s); }
+    while let Some(s) = q.pop_front() {
+        for t in G::succ(s) { if !dist.contains_key(&t) { dist.insert(t, dist[&s] + 1); q.push_back(t); } }
+    }
+    let (rec, evaluated) = StateRecorder::new_with_accessor();
+    let (tx, rx) = std::sync::mpsc::channel();
+    std::thread::spawn(move || { let _ = tx.send(G.checker().threads(1).visitor(rec).spawn_bfs().join()); });
+    let checker = match rx.recv_timeout(std::time::Duration::from_secs(20)) {
+        Ok(c) => c,
+        Err(_) => { println!("VIOLATION BFS order: the check of a 60-state graph did not finish within 20 s (path reconstruction does not terminate?)"); std::process::exit(1) }
+    };
+    let ev = evaluated();
+    let mut last = 0;
+    for s in &ev {
+        let d = dist[s];
+        assert!(d >= last, "VIOLATION BFS order: state {} at distance {} evaluated after a state at distance {}", s, d, last);
+        last = d;
+    }
+    for (name, targets) in [("hit", vec![19u32, 12, 44]), ("low", vec![23u32, 52, 17])] {
+        let best = targets.iter().filter_map(|t| dist.get(t)).min().copied().unwrap();
+        let path = checker.discovery(name).expect("a witness is reachable");
+        let len = path.into_states().len() - 1;
+        assert!(len == best, "VIOLATION BFS order: witness for {:?} has {} transitions, the shortest has {}", name, len, best);
+    }
+}
+'''
+
 DEPTH_TEST = r'''
 use stateright::{Checker, Model, Property, StateRecorder};
 
@@ -584,8 +667,31 @@ impl Model for Tree {
     fn properties(&self) -> Vec<Property<Self>> { vec![Property::always("true", |_, _| true)] }
 }
 
+/// LANES independent chains: every level is LANES states wide (wider than one 1500-job block).
+struct Lanes(u32);
+impl Model for Lanes {
+    type State = (u32, u32);
+    type Action = ();
+    fn init_states(&self) -> Vec<(u32, u32)> { (0..self.0).map(|i| (1, i)).collect() }
+    fn actions(&self, s: &(u32, u32), a: &mut Vec<()>) { if s.0 < 6 { a.push(()); } }
+    fn next_state(&self, s: &(u32, u32), _a: ()) -> Option<(u32, u32)> { Some((s.0 + 1, s.1)) }
+    fn properties(&self) -> Vec<Property<Self>> { vec![Property::always("true", |_, _| true)] }
+}
+
 #[test]
 fn verif_depth_limit_is_honoured() {
+    for k in 1usize..=4 {
+        for dfs in [false, true] {
+            let (rec, evaluated) = StateRecorder::new_with_accessor();
+            let b = Lanes(4000).checker().threads(1).target_max_depth(k).visitor(rec);
+            if dfs { b.spawn_dfs().join(); } else { b.spawn_bfs().join(); }
+            let ev = evaluated();
+            let deepest = ev.iter().map(|s| s.0).max().unwrap_or(0);
+            assert!(deepest as usize <= k, "VIOLATION depth limit: 4000 lanes, target_max_depth({}) dfs={} evaluated a state at depth {}", k, dfs, deepest);
+            let nearer = ev.iter().filter(|s| (s.0 as usize) < k).count();
+            assert!(nearer == 4000 * (k - 1), "VIOLATION depth limit: 4000 lanes, target_max_depth({}) dfs={} evaluated {} of the {} states nearer than the limit", k, dfs, nearer, 4000 * (k - 1));
+        }
+    }
     for k in 1usize..=6 {
         for dfs in [false, true] {
             let (rec, evaluated) = StateRecorder::new_with_accessor();
@@ -652,7 +758,10 @@ def _integration_test(d, v, code, fname, marker):
         env = dict(os.environ)
         env["CARGO_NET_OFFLINE"] = "true"
         env["CARGO_TARGET_DIR"] = os.path.join(CACHE_ROOT, "target-mir-native")
-        r = subprocess.run(["cargo", "test", "--offline", "--test", fname], cwd=sr, env=env, stdout=subprocess.PIPE, stderr=subprocess.STDOUT, text=True, timeout=1500)
+        try:
+            r = subprocess.run(["cargo", "test", "--offline", "--test", fname], cwd=sr, env=env, stdout=subprocess.PIPE, stderr=subprocess.STDOUT, text=True, timeout=600)
+        except subprocess.TimeoutExpired:
+            return None, "native demonstration did not finish within 600 s"
         if marker in r.stdout:
             _WORKER_REPLAYS[code] = (True, r.stdout[-1500:])
         elif re.search(r"test result: ok\. 1 passed", r.stdout):
@@ -699,6 +808,8 @@ def replay_static(d, pid, v):
             return _WORKER_REPLAYS[code]
         finally:
             os.remove(tp)
+    if pid == "C13":
+        return _integration_test(d, v, BFS_ORDER_TEST, "verif_bfs_order", "VIOLATION BFS order")
     if " check_block: " in v["obligation"]:
         return _integration_test(d, v, DEPTH_TEST, "verif_depth_limit", "VIOLATION depth limit")
     if "the worker leaves only after" in v["obligation"]:
@@ -745,40 +856,7 @@ def replay_static(d, pid, v):
     return None, "no native demonstration implemented for this static obligation"
 
 
-EXPLAIN = {
-    "C05": ("Job-broker protocol of the parallel checkers, decided from the compiler's MIR of src/job_market.rs: every JobBroker method is executed "
-            "symbolically from an arbitrary market state into atomic segments (lock..unlock / lock..wait / wake..unlock); a BMC composes them with the worker "
-            "loop of the checkers (pop -> block -> finish|split_and_push -> ... -> Drop) and lets z3 choose the schedule (which thread runs which critical "
-            "section next, whom notify_one wakes), the block outcomes (jobs consumed/generated) and the stop reasons (finish/target/panic, empty batch). "
-            "Obligations: no reachable state where a worker sleeps and nobody can ever move (lost wake-up/deadlock => join returns); while nobody asked to stop, "
-            "market + local queues + consumed = initial + generated and nothing is discarded (no batch lost or handed to two workers); no batch in a closed market; "
-            "on a closed market every broker call hands out nothing and never re-opens (stop propagates within one block per worker); the worker closures of bfs.rs/dfs.rs are executed symbolically from their MIR one round at a time "
-            "(pop only on an empty queue, the popped batch is the queue worked on, exactly one block per round on the worker's own non-empty queue, nothing dropped while it keeps going, it leaves only after an empty batch / met finish condition / target count, "
-            "every round of a busy worker observes a closed market, a panic unwinds through the broker's Drop) and the client automaton's sharing rule is derived from them; an inductive invariant "
-            "(open => open_count = #active workers, last-worker rule never closes while work exists) proves the quiescence detection for schedules of ANY length."),
-    "C12": ("Timeout clause of the run controls, decided from the MIR of the timeout thread (JobBroker::new::{closure#0}) with the clock a symbolic value: "
-            "an iteration that sees closing_time < now closes the market and exits (dropping its broker clone, whose Drop wakes all waiters); before that it "
-            "leaves the market untouched and goes back to sleep for one period - so the market is closed at most one sleep period plus one critical section "
-            "after expiry, for every thread count; it never sleeps while holding the market mutex (an unexpired timeout takes no progress away from the "
-            "workers); once closed, every worker's NEXT broker call (pop/split_and_push/push) observes it and hands out nothing. That a busy worker makes such a call is decided on the MIR of the bfs.rs/dfs.rs worker closures, executed symbolically one round at a time (queue lengths, thread count, block outcome, finish verdict symbolic): a round without a broker call that observes the market must end with an empty queue (so the next round starts with pop) - otherwise rounds that never look at the market can follow each other for ever and the timeout is ignored. Finish-condition and target wiring of those closures: a worker leaves its loop only after pop returned an empty batch, after finish_when.matches(..) returned true, or when target_state_count <= state_count (the verdict of matches itself and the counter are arbitrary values here). Depth limit: check_block of bfs.rs and dfs.rs is executed from its MIR one job at a time with the job's depth d and target_max_depth symbolic (inner loops over properties and successors abstracted by havocking what they assign; model callbacks, property conditions, visitor, DashMap arbitrary): a popped job is skipped only if the limit is set and d >= limit (every state nearer than the limit is evaluated), an evaluated job has d <= limit (nothing deeper is evaluated), and every successor is queued with depth d + 1."),
-}
-BOUNDS = {
-    "C05": {"quick": {"threads": "2 (K=10), 3 (K=8)", "jobs_per_queue": "<=6", "generated_per_block": "<=2", "market_batches": "<=4", "invariant": "inductive: any schedule length, T=2 and T=3"},
-            "thorough": {"threads": "2 (K=14; K=10 with spurious wake-ups), 3 (K=10; K=8 with spurious wake-ups)", "jobs_per_queue": "<=6", "generated_per_block": "<=2", "market_batches": "<=4", "variants": "with and without spurious wake-ups", "invariant": "inductive, T=2 and T=3"}},
-    "C12": {"quick": {"paths": "all paths of one loop iteration of the timeout thread (arbitrary market state and clock); all paths of one round of the bfs.rs/dfs.rs worker closures; all paths of one job through check_block of bfs.rs/dfs.rs with each inner loop abstracted (havoc at the loop head, exit path + one body iteration)"}, "thorough": {"paths": "same (the check is not bounded in schedule length)"}},
-}
-OUTSIDE = {
-    "C05": ["equality of the evaluated state set / verdicts with the single-threaded run (needs check_block + DashMap arbitration; see C01)", "more than 3 worker threads, longer schedules for the BMC obligations", "memory-model effects (all shared state is mutex-protected)", "OS scheduling fairness; the timeout stop reason (see C12)", "the on_demand.rs worker closure (not encoded)"],
-    "C12": ["the on_demand.rs worker closure (same sharing code, blocks on a control channel; not encoded - OnDemandChecker::join cannot return anyway)", "the length of one block of work (check_block evaluates up to 1500 states between two broker calls)", "what HasDiscoveries::matches computes (CBMC out of memory, measured) and which discoveries/properties it is handed; the state counter's accuracy", "depth labels of the initial jobs (built in spawn(), depth 1) and that BFS's FIFO order makes the label the true distance (queue order is not modelled: lengths only); the on_demand checker's check_block (it has no depth limit)", "simulation seeding (RNG + HashSet) and the simulation checker's own shutdown flag", "wall-clock accuracy of real sleeps"],
-}
-ASSUME = [
-    "crate `log` replaced by a model whose macros expand to nothing",
-    "crate `parking_lot` replaced by a model exposing lock / wait / notify_one / notify_all / guard drop as sync points; contract: mutual exclusion, wait releases and re-acquires atomically, notify_one wakes at most one CURRENT waiter (solver-chosen), notify_all all current waiters; spurious wake-ups allowed in the thorough variant",
-    "Vec<VecDeque<Job>> / VecDeque<Job> abstracted to their lengths (jobs are opaque and conserved by new/len/is_empty/clear/push/pop/split_off); job_batches capacity 4 in the model (exceeding it is reported, not ignored)",
-    "the worker loop of the BMC's client automaton (pop on empty queue -> one block -> stop | split_and_push -> ...) is checked against the MIR of the bfs.rs/dfs.rs spawn() closures on every run (worker-loop obligations) and its sharing rule (`len > 1 && thread_count > 1` or unconditional) is derived from that MIR; the on_demand.rs closure is not encoded",
-    "check_block (depth obligations): every callee is arbitrary except queue pop/push, NonZero arithmetic and the depth comparison; inner loops are over-approximated by havocking, at the loop head, every local assigned in the loop and every queue length; `otherwise -> unreachable` switch arms emitted by rustc for exhaustive enum matches are trusted",
-    "worker closures: check_block sets the local queue to an arbitrary length, HasDiscoveries::matches returns an arbitrary bool, atomic loads arbitrary values, JobBroker::pop an arbitrary batch, split_and_push leaves an arbitrary part of the queue; any other callee that is handed neither the broker nor a queue returns an arbitrary value of its type and cannot reach them (both are owned by the closure); a callee that is handed one and has no model makes the check inconclusive",
-]
+from texts import EXPLAIN, BOUNDS, OUTSIDE, ASSUME  # noqa: E402
 
 
 if __name__ == "__main__":
